@@ -29,12 +29,58 @@ def _sync_lock(crate_dir):
         shutil.copyfile(src, dst)
 
 
+_ALT_DONE = set()
+
+
+def alt_repo():
+    """VERIF_REPO=<dir> points the harness crates at another checkout of boa (used to try seeded changes in a
+    scratch worktree without touching /repo). Registered checks never set it."""
+    r = os.environ.get("VERIF_REPO", "").rstrip("/")
+    return r if r and r != REPO else None
+
+
+def _tag():
+    r = alt_repo()
+    if not r:
+        return ""
+    import hashlib
+    return "-alt" + hashlib.sha1(r.encode()).hexdigest()[:8]
+
+
+def crate_dir(crate):
+    """directory of the harness crate (a copy with rewritten path dependencies when VERIF_REPO is set)"""
+    src = os.path.join(VERIF, "harness", crate)
+    r = alt_repo()
+    if not r:
+        return src
+    dst = os.path.join(VERIF, ".work", "harness" + _tag(), crate)
+    if dst in _ALT_DONE:
+        return dst
+    os.makedirs(os.path.dirname(dst), exist_ok=True)
+    if os.path.exists(dst):
+        shutil.rmtree(dst)
+    shutil.copytree(src, dst, ignore=shutil.ignore_patterns("target"))
+    _ALT_DONE.add(dst)
+    ct = os.path.join(dst, "Cargo.toml")
+    with open(ct) as f:
+        t = f.read()
+    with open(ct, "w") as f:
+        f.write(t.replace('"/repo/', '"%s/' % r))
+    if not os.path.exists(os.path.join(dst, "Cargo.lock")):
+        shutil.copyfile(os.path.join(r, "Cargo.lock"), os.path.join(dst, "Cargo.lock"))
+    return dst
+
+
+def target_dir_for(crate, flavour):
+    return os.path.join(TARGETS, (flavour if crate == "bvh" else "%s-%s" % (crate, flavour)) + _tag())
+
+
 def ensure(crate="bvh", flavour="native", features=None, quiet=True, private=True):
     """Returns the path of the built binary. flavours: native | enum | asan | release"""
-    crate_dir = os.path.join(VERIF, "harness", crate)
+    cdir = crate_dir(crate)
     os.makedirs(TARGETS, exist_ok=True)
-    target_dir = os.path.join(TARGETS, flavour if crate == "bvh" else "%s-%s" % (crate, flavour))
-    lock_path = os.path.join(TARGETS, "%s-%s.lock" % (crate, flavour))
+    target_dir = target_dir_for(crate, flavour)
+    lock_path = os.path.join(TARGETS, "%s-%s%s.lock" % (crate, flavour, _tag()))
     env = dict(os.environ)
     env.update(ENV_BASE)
     env["CARGO_TARGET_DIR"] = target_dir
@@ -56,9 +102,9 @@ def ensure(crate="bvh", flavour="native", features=None, quiet=True, private=Tru
         cmd += ["--features", ",".join(feats)]
     with open(lock_path, "w") as lk:
         fcntl.flock(lk, fcntl.LOCK_EX)
-        _sync_lock(crate_dir)
+        _sync_lock(cdir)
         t0 = time.time()
-        p = subprocess.run(cmd, cwd=crate_dir, env=env, stdout=subprocess.PIPE, stderr=subprocess.STDOUT, text=True)
+        p = subprocess.run(cmd, cwd=cdir, env=env, stdout=subprocess.PIPE, stderr=subprocess.STDOUT, text=True)
         if p.returncode != 0:
             tail = "\n".join(p.stdout.splitlines()[-60:])
             raise BuildError("build of %s/%s failed:\n%s" % (crate, flavour, tail))
@@ -76,7 +122,7 @@ def ensure(crate="bvh", flavour="native", features=None, quiet=True, private=Tru
     import atexit
     d = os.path.join(VERIF, ".work", "bin")
     os.makedirs(d, exist_ok=True)
-    dst = os.path.join(d, "%s-%s-%d" % (crate, flavour, os.getpid()))
+    dst = os.path.join(d, "%s-%s%s-%d" % (crate, flavour, _tag(), os.getpid()))
     if not os.path.exists(dst):
         with open(lock_path, "w") as lk:
             fcntl.flock(lk, fcntl.LOCK_EX)
